@@ -130,6 +130,12 @@ impl DatagramState {
             debug!("dropping stale datagram");
             self.recv();
         }
+        // Datagrams without payload take nothing from the byte budget; bound the number of
+        // buffered datagrams as well, so a peer cannot grow the queue without limit
+        while self.incoming.len() > window {
+            debug!("dropping stale datagram");
+            self.recv();
+        }
 
         self.recv_buffered += datagram.data.len();
         self.incoming.push_back(datagram);
